@@ -3,6 +3,7 @@ package checks
 import (
 	"encoding/base64"
 	"fmt"
+	"net/url"
 	"strings"
 	"time"
 
@@ -404,6 +405,26 @@ func c05Unit(c *RunCtx, unit int) {
 				s.W.Faults = map[int]error{1 + r.Intn(4): errGeneric}
 				c.Stats.Count("genuine-use-with-backend-fault")
 			}
+			if s.W.Faults == nil && r.Intn(3) == 0 {
+				// while the genuine token is being checked (before the i-th backend call of that request)
+				// another visitor's request with some well-formed but worthless token runs to completion:
+				// one request's token check is none of the other's business
+				junk := make([]byte, 64)
+				r.Read(junk)
+				jt := base64.URLEncoding.EncodeToString(junk)
+				other := pickS(r, "confirm", "recover")
+				at := r.Intn(3)
+				s.W.Yield = map[int]func(){at: func() {
+					b := world.NewBrowser(70 + r.Intn(20))
+					if other == "confirm" {
+						s.W.Do(b, world.Req{Method: "GET", Path: s.W.P("/confirm") + "?cnf=" + url.QueryEscape(jt)})
+					} else {
+						s.W.Do(b, world.Req{Method: "POST", Path: s.W.P("/recover/end"), Form: map[string]string{"token": jt, "password": "Another1!passw", "confirm_password": "Another1!passw"}})
+					}
+				}}
+				c.Stats.Count("genuine-use-interleaved-with-another-token-check")
+				finalCls += "+interleaved"
+			}
 			step(litTok(kind, r.Intn(2), ai, final, finalCls, newpw))
 			if final != t.Token {
 				step(litTok(kind, r.Intn(2), ai, t.Token, "verbatim-after-respelling", newpw))
@@ -435,7 +456,7 @@ func head(h []string, n int) []string {
 func init() {
 	register(&Check{
 		ID: "C05", Level: "exploration",
-		Rule:  "per unit: 3 accounts, each issued a confirmation and a recovery token (some re-issued, superseding the first); per genuine token ~560 hostile submissions: all 512 single-bit flips of its 64 bytes, truncations to 0/1/31/32/63 bytes, extensions, broken/unpadded base64, selector/verifier splices with other accounts' tokens in both directions, every value recombined from the halves of any two mailed tokens (all ordered pairs, all four half combinations, both endpoints — must be nobody's token), the other kind's token, the stored selector/verifier strings and their bytes, random bytes, superseded tokens; then the genuine token with a weak password (nothing may change), then the genuine token — in a different base64 spelling of the same bytes in 2/3 of the cases, at age 0 / ttl-1ns / ttl+1ns / 10*ttl, with a storer that hands timestamps back in UTC or in a zone 13 h east / 11 h west / 5.5 h east of it — then replays from two browsers. Oracle per submission: accept iff decoded bytes equal a live token of that kind (and unexpired, password valid & hashable); accept must touch exactly that account's fields; reject must leave storage byte-identical. distinct_nontrivial = distinct (kind, mutation class, ledger verdict, mode, status) signatures.",
+		Rule:  "per unit: 3 accounts, each issued a confirmation and a recovery token (some re-issued, superseding the first); per genuine token ~560 hostile submissions: all 512 single-bit flips of its 64 bytes, truncations to 0/1/31/32/63 bytes, extensions, broken/unpadded base64, selector/verifier splices with other accounts' tokens in both directions, every value recombined from the halves of any two mailed tokens (all ordered pairs, all four half combinations, both endpoints — must be nobody's token), the other kind's token, the stored selector/verifier strings and their bytes, random bytes, superseded tokens; then the genuine token with a weak password (nothing may change), then the genuine token (in a third of the cases with another visitor's request — some worthless but well-formed token — running to completion between two of its backend calls) — in a different base64 spelling of the same bytes in 2/3 of the cases, at age 0 / ttl-1ns / ttl+1ns / 10*ttl, with a storer that hands timestamps back in UTC or in a zone 13 h east / 11 h west / 5.5 h east of it — then replays from two browsers. Oracle per submission: accept iff decoded bytes equal a live token of that kind (and unexpired, password valid & hashable); accept must touch exactly that account's fields; reject must leave storage byte-identical. distinct_nontrivial = distinct (kind, mutation class, ledger verdict, mode, status) signatures.",
 		Units: func(t string) int { return tierN(t, 48, 2000) },
 		Run:   c05Unit,
 		Floors: func(t string) map[string]int {
